@@ -23,7 +23,8 @@ class SwitchDriver(MachineDriver):
     offer_late = False
     switch = "s1"
     invert = 0
-    HANDLERS = [(1, 0, "h1"), (1, 100, "h1"), (1, 200, "h1"), (1, 100, "h2"), (0, 0, "h1"), (0, 100, "h1")]
+    # "hr" is an untimed handler whose callback removes the hold-time registrations of h1 for the active state
+    HANDLERS = [(1, 0, "h1"), (1, 100, "h1"), (1, 200, "h1"), (1, 100, "h2"), (0, 0, "h1"), (0, 100, "h1"), (1, 0, "hr")]
     EVENTS = {"s1": ({1: ["s1_active"], 0: ["s1_inactive"]}, []),
               "s2": ({1: ["s2_active"], 0: ["s2_inactive"]}, []),
               "s3": ({1: ["s3_active", "sw_t3", "sw_t3_active", "s3_on"], 0: ["s3_inactive", "sw_t3_inactive", "s3_off"]},
@@ -35,7 +36,7 @@ class SwitchDriver(MachineDriver):
         self.cblog = []         # (time, kind, id)
         self.seen = 0
         self.cbs = {}
-        for name in ("h1", "h2"):
+        for name in ("h1", "h2", "hr"):
             self.cbs[name] = self._mk(name)
         evs, timed = self.EVENTS[self.switch]
         for st in (0, 1):
@@ -57,6 +58,15 @@ class SwitchDriver(MachineDriver):
     def _mk(self, name):
         def cb(**kwargs):
             self.cblog.append((self.loop.time(), "cb", (name, kwargs.get("state"), kwargs.get("ms"))))
+            if name == "hr":
+                # remove h1's hold-time handlers for this state from inside the dispatch of the change
+                for key in [k for k in self.keys if k[2] == "h1" and k[1] > 0 and k[0] == 1]:
+                    for k in self.keys.pop(key):
+                        self.sc.remove_switch_handler_by_key(k)
+                    if self.reg.get(key):
+                        self.stat("removed_from_inside_dispatch")
+                    self.reg[key] = 0
+                    self.pending = [p for p in self.pending if p[1] != ("cb", (key[2], key[0], key[1]))]
         return cb
 
     def _on_event(self, _ev, **kwargs):
@@ -171,11 +181,16 @@ class SwitchDriver(MachineDriver):
 
     def fingerprint(self):
         now = self.loop.time()
+        names = {id(cb): n for n, cb in self.cbs.items()}
         return (self.state, None if self.t_change is None else min(r6(now - self.t_change), 0.5),
                 tuple(sorted(self.reg.items())),
                 tuple(sorted((r6(d - now), k) for d, k in self.pending)), self.rel_timers(),
                 # the controller's own record of timed handlers (a removed handler can leave an empty deadline behind)
-                tuple(sorted((r6(k - now), len(v)) for k, v in self.m.switch_controller._active_timed_switches.get(self.sw, {}).items())))
+                tuple(sorted((r6(k - now), len(v)) for k, v in self.m.switch_controller._active_timed_switches.get(self.sw, {}).items())),
+                # registration order decides whether "hr" runs before or after a hold-time handler is armed
+                tuple(tuple((e.ms, names[id(getattr(e.callback, "func", e.callback))])
+                            for e in self.sc.registered_switches[self.sw][st]
+                            if id(getattr(e.callback, "func", e.callback)) in names) for st in (0, 1)))
 
     def observe(self):
         return {"log": [(r6(t - self.t0), k, v) for t, k, v in self.cblog], "state": self.sw.state}
